@@ -221,6 +221,7 @@ int main() {
     int64_t fin_deadline = 0;                     // != 0: `fin` is waiting for callbacks
     std::vector<int> cancelled;                   // cancel answered 0
     bool fin_done = false;
+    bool at_eof = false; int off_n = 0; unsigned off_dur = 0;
     g_cancelled = &cancelled;
 
     auto print_events = [&] {
@@ -258,7 +259,7 @@ int main() {
             return true;
         }
         std::string line;
-        if (!std::getline(std::cin, line)) { reset_case(); return false; }
+        if (!std::getline(std::cin, line)) { reset_case(); at_eof = true; return false; }
         auto w = vh::words(line);
         if (w.empty()) return true;
         if (w[0] == "case") { reset_case(); cancelled.clear(); fin_done = false; std::cout << line << "\n"; return true; }
@@ -340,6 +341,12 @@ int main() {
                 }
             } while (std::chrono::steady_clock::now() < t_end);
             std::cout << "P hammer\n";
+        } else if (op == "offloop" && w.size() == 3 && vh::to_u64(w[1], a) && a >= 1 && a <= 64 && vh::to_u64(w[2], b) && b <= 20000
+                   && (g_tp || g_wt) && g_ntasks + a < kMaxTasks) {
+            // leave runLoop(); the main thread then submits `a` tasks WITH completion callbacks while the loop is not
+            // running, waits for their bodies, and runs the loop again (see main)
+            off_n = (int)a; off_dur = (unsigned)b;
+            return false;
         } else if (op == "sleep" && w.size() == 2 && vh::to_u64(w[1], a) && a <= 200000) {
             usleep(a);
             std::cout << "P sleep\n";
@@ -385,7 +392,52 @@ int main() {
         }
         return true;
     };
-    drv.run();
+    for (;;) {
+        drv.run();                                 // returns at EOF or when an `offloop` op stopped the loop
+        if (at_eof) break;
+        // ---- the loop is NOT running: workers post their completion callbacks to a stopped loop
+        size_t first = g_ntasks;
+        for (int i = 0; i < off_n; ++i) {
+            size_t k = g_ntasks;
+            TaskRec &t = g_tasks[k];
+            t.prio = 0; t.cb = true; t.dur_us = off_dur;
+            auto body = [k] {
+                TaskRec &t = g_tasks[k];
+                if (t.nbody.fetch_add(1) > 0) { t.extra.fetch_add(1); return; }
+                t.thr = thr_index(); t.s = seq();
+                if (t.dur_us) usleep(t.dur_us);
+                t.e = seq();
+            };
+            auto cbf = [k] {
+                TaskRec &t = g_tasks[k];
+                if (t.ncb.fetch_add(1) > 0) { t.extra.fetch_add(1); return; }
+                t.cbthr = thr_index(); t.cbq = seq();
+            };
+            bool quiet = quiescent();
+            size_t thr0 = 0, idle0 = 0, undo0 = 0;
+            if (g_tp) { auto ss = g_tp->snapshot(); thr0 = ss.thread_num; idle0 = ss.idle_thread_num;
+                        for (size_t j = 0; j < THREAD_POOL_PRIO_SIZE; ++j) undo0 += ss.undo_task_num[j]; }
+            int created0 = g_created.load();
+            uint64_t qb = seq();
+            cabinet::Token tok = g_tp ? g_tp->execute(body, cbf, 0) : g_wt->execute(body, cbf);
+            uint64_t qa = seq();
+            int spawned = g_created.load() - created0;
+            if (tok.isNull()) std::cout << "P exec null " << qb << " " << qa << "\n";
+            else { t.token = tok; ++g_ntasks; std::cout << "P exec " << k << " " << qb << " " << qa << "\n"; }
+            std::cout << "M spawn " << spawned << " " << (quiet ? 1 : 0) << " " << thr0 << " " << idle0 << " " << undo0 << "\n";
+        }
+        int64_t dl = now_ms() + g_watchdog_ms;
+        bool ok = false;
+        while (!g_cleaned) {
+            ok = true;
+            for (size_t k = first; k < g_ntasks && ok; ++k) if (g_tasks[k].e.load() == 0) ok = false;
+            if (ok || now_ms() > dl) break;
+            usleep(100);
+        }
+        usleep(3000);                              // the workers post the callbacks right after the bodies
+        std::cout << "P offloop " << ((ok || g_cleaned) ? "ok" : "timeout") << "\n";
+        off_n = 0;
+    }
     delete g_loop;
     return 0;
 }
